@@ -139,6 +139,18 @@ pub fn c14(s: &mut Sess, rng: &mut Rng, n: u64) {
             let c = contents[rng.below(3) as usize].to_vec();
             ops.push(match rng.below(10) { 0..=5 => Op::Put(k, c), 6 | 7 => Op::Remove(k), 8 => Op::Checkpoint, _ => Op::RemoveAll });
         }
+        // every eighth case: the target is exactly the operation that rolls the log over for the
+        // first time, nothing is checkpointed yet — a fault in its roll-over checkpoint meets a log
+        // whose only copy of the earlier operations is the segment about to be pruned
+        let cfg = if i % 8 == 3 {
+            for o in ops.iter_mut() {
+                if matches!(o, Op::Checkpoint | Op::RemoveAll | Op::Remove(_)) {
+                    *o = Op::Put(keys[rng.below(3) as usize].to_vec(), contents[rng.below(3) as usize].to_vec());
+                }
+            }
+            s.out.count("history.first-rollover-target");
+            format!("cfg kind=bytes n={} sync={} pre=0", ops.len(), sync as u8)
+        } else { cfg };
         // the targeted operation is the last one; sometimes a reopen (close or open is the target)
         let (target_op, target_line) = match i % 6 {
             0 => (Op::Reopen, 1usize),       // fault inside open (recovery)
@@ -172,6 +184,9 @@ pub fn c14(s: &mut Sess, rng: &mut Rng, n: u64) {
                 _ => {}
             }
         }
+        // … or restart straight after the failed operation: the image the failed call left is all
+        // the next open has (nothing is healed by a later checkpoint)
+        if i % 4 == 3 { cont.clear(); s.out.count("cont.none"); }
         let Some(nev) = run(s, &cfg, &ops, target, target_line, 1_000_000, &cont) else { continue };
         s.out.add("fault.points", nev);
         for k in 0..nev {
